@@ -10,10 +10,12 @@ import vlib
 WK = {("set", "invalidate"): "WK_two", ("set",): "WK_set", ("invalidate",): "WK_inv", ("evict",): "WK_ev"}
 
 
-def lr_cfg(getters, refreshers, writers, wk, live):
+def lr_cfg(getters, refreshers, writers, wk, live, preload=False, expected="live", stale_cancels=False, window=False):
     return ("SPECIFICATION Spec\nCONSTANTS\n Getters = {%s}\n Refreshers = {%s}\n Writers = {%s}\n WriterKind <- %s\n"
-            " Outcomes = {\"val\", \"err\", \"nf\", \"panic\"}\nINVARIANTS NoOverlap CleanTable Returned JoinersShare NoStaleInstall\n%s" %
+            " Outcomes = {\"val\", \"err\", \"nf\", \"panic\"}\n Preload = %s\n Expected = %s\n StaleCancels = %s\n"
+            "INVARIANTS NoOverlap CleanTable Returned JoinersShare NoStaleInstall NoDrop LockFree%s\n%s" %
             (", ".join(map(str, getters)), ", ".join(map(str, refreshers)), ", ".join(map(str, writers)), wk,
+             "TRUE" if preload else "FALSE", '"%s"' % expected, "TRUE" if stale_cancels else "FALSE", " NoWindowInstall" if window else "",
              "PROPERTIES Terminates\n" if live else ""))
 
 
@@ -88,11 +90,19 @@ def run(prop, tier, replay=None, collect_only=False):
             with open(replay) as f:
                 scen = json.load(f)
         else:
-            inst = [("g2r1w2", lr_cfg([1, 2], [3], [11, 12], "WK_two", True)), ("g2w1ev", lr_cfg([1, 2], [], [11], "WK_ev", True))]
+            inst = [("g1r1w2", lr_cfg([1], [3], [11, 12], "WK_two", True)), ("g1r1w2p", lr_cfg([1], [3], [11, 12], "WK_two", True, preload=True)),
+                    ("g2w1ev", lr_cfg([1, 2], [], [11], "WK_ev", True)), ("g1r1stale", lr_cfg([1], [3], [11, 12], "WK_set_stale", True, preload=True))]
+            # the switches set the old way must violate (otherwise the invariants are vacuous): F14, F17 (open), F16
+            neg = [("neg_F14", lr_cfg([1], [], [11], "WK_set", False, expected="none", window=True), "NoWindowInstall"),
+                   ("neg_F17", lr_cfg([1], [3], [11], "WK_inv", False, preload=True, window=True), "NoWindowInstall"),
+                   ("neg_F16", lr_cfg([1], [], [11], "WK_stale", False, stale_cancels=True), "NoDrop")]
             if prop == "C11":
-                inst = [("g1r2w1", lr_cfg([1], [3, 4], [11], "WK_set", True))]
+                inst = [("g1r2w1", lr_cfg([1], [3, 4], [11], "WK_set", True, preload=True))]
+                neg = []
             elif not quick:
-                inst += [("g3r1w1", lr_cfg([1, 2, 3], [4], [11], "WK_set", False)), ("g2r2w2", lr_cfg([1, 2], [3, 4], [11, 12], "WK_two", False))]
+                inst += [("g1r2w2p", lr_cfg([1], [3, 4], [11, 12], "WK_two", False, preload=True)), ("g2r1w1", lr_cfg([1, 2], [3], [11], "WK_set", False)),
+                         ("g2r1w1inv", lr_cfg([1, 2], [3], [11], "WK_inv", False, preload=True))]
+            neg_futs = [(ex.submit(run_mc, work, tag, txt, 2), inv) for tag, txt, inv in neg]
             mc_futs = [ex.submit(run_mc, work, tag, txt, 6 if quick else 8) for tag, txt in inst]
             scen = scenarios(prop, quick, seed)
         nshard = min(vlib.NCPU, max(1, len(scen) // 10))
@@ -138,6 +148,12 @@ def run(prop, tier, replay=None, collect_only=False):
                 seen.add(x["rec"])
                 path = vlib.save_replay(prop, "load-%s-%d" % (sc["policy"], sc["seed"]), [sc])
                 violations.append((x, sc, path))
+        for fu, inv in (neg_futs if not replay else []):
+            r = fu.result()
+            hit = ("Invariant %s is violated" % inv) in r["out"]
+            cov.setdefault("switches_that_must_violate", []).append({"instance": r["tag"], "invariant": inv, "violated": hit})
+            if not hit:
+                broken.append("LoadRace %s: %s is not violated although the switch is set the old way (vacuous invariant?)" % (r["tag"], inv))
         for fu in mc_futs:
             r = fu.result()
             cov["mc"].append({"instance": r["tag"], "distinct": r["distinct"], "generated": r["generated"], "wall_s": round(r["wall"], 1)})
